@@ -64,7 +64,7 @@ func c14Child(run *evid.Run, batch, nb int, j *Journal) {
 	}
 }
 
-var c14Kinds = []string{"live-append", "live-merge", "cross", "ring", "cross", "live-append", "cross-4party"}
+var c14Kinds = []string{"live-append", "live-merge", "cross", "ring", "cross", "live-append", "cross-4party", "stalled-reader", "ladder"}
 var c14Regimes = []string{"free", "noise", "park-source-heads-read", "park-source-entries-read", "park-holding-own-lock"}
 
 // c14FourParty: two logs merge each other in loops while a separate goroutine appends to each of them. With two
@@ -179,11 +179,154 @@ func c14FourParty(run *evid.Run, i int, regime string, j *Journal) {
 	run.NonTrivial("cross-4party/" + regime + "/" + model.DigestSeq(tr))
 }
 
+// c14StalledReader: somebody iterates the SOURCE through an unbuffered channel and stops consuming; the source is
+// appended to; a merge from the source must still terminate. Every other scenario uses an access controller that
+// inspects the log through its context on the destination.
+func c14StalledReader(run *evid.Run, i int, j *Journal) {
+	rng := rand.New(rand.NewSource(run.Seed*733 + int64(i)))
+	w := hx.NewWorld(run.Seed, 3, fmt.Sprintf("c14s-%d-%d", run.Seed, i), "hash", "cbor")
+	label := fmt.Sprintf("#%d stalled-reader", i)
+	j.Log(map[string]any{"scenario": label})
+	A := w.NewLog(0)
+	lo := w.LogOpts(w.LogID)
+	if i%2 == 0 {
+		lo.AccessController = &inspectACL{}
+	}
+	B, _ := ipfslog.NewLog(w.Store.API(), w.Idents[1], lo)
+	p := newPlan(uint64(run.Seed)+uint64(i), i%3 == 0, map[*ipfslog.IPFSLog]string{A: "A", B: "B"})
+	activePlan.Store(p)
+	defer activePlan.Store(nil)
+	// set-up is guarded too: with an inspecting controller a sequential merge can already block
+	ok, dead, dump := guardCall(func() {
+		for n := 3 + rng.Intn(5); n > 0; n-- {
+			_, _ = A.Append(w.Ctx, []byte(fmt.Sprintf("a%d", n)), nil)
+		}
+		_, _ = B.Append(w.Ctx, []byte("b0"), nil)
+		_, _ = B.Join(A, -1)
+	}, 30*time.Second)
+	if !ok {
+		if dead {
+			run.Violate("C14/deadlock", det("kind", "stalled-reader", "regime", "sequential set-up"), map[string]any{"scenario": label, "blocked_goroutines": dump}, "a merge into a log whose access controller inspects the log never returns (%s)", label)
+		} else {
+			run.Inconclusive("set-up did not finish: " + label)
+		}
+		run.Eval(1)
+		return
+	}
+	out := make(chan iface.IPFSLogEntry) // unbuffered
+	release := make(chan struct{})
+	go func() { _ = A.Iterator(&iface.IteratorOptions{}, out) }()
+	go func() {
+		<-out // take one entry ...
+		<-release
+		for range out { // ... and only continue when told to
+		}
+	}()
+	time.Sleep(2 * time.Millisecond)
+	done := runWorkers(2, func(g int) {
+		if g == 0 {
+			for n := 0; n < 3; n++ {
+				_, _ = A.Append(w.Ctx, []byte(fmt.Sprintf("a-live-%d", n)), nil)
+			}
+			return
+		}
+		for n := 0; n < 3; n++ {
+			if _, err := B.Join(A, -1); err != nil {
+				run.Violate("C14/join-error", det("kind", "stalled-reader"), map[string]any{"scenario": label}, "merge failed: %v", err)
+			}
+		}
+	})
+	ok, dead, dump = waitAll(done, p, 60*time.Second)
+	close(release)
+	run.Eval(1)
+	run.Count("scenarios_stalled-reader", 1)
+	if !ok {
+		if dead {
+			run.Violate("C14/deadlock", det("kind", "stalled-reader"), map[string]any{"scenario": label, "blocked_goroutines": dump}, "a merge from a log that somebody iterates through an unbuffered channel without consuming, while the log is appended to, never terminates (%s)", label)
+		} else {
+			run.Inconclusive("watchdog fired without a deadlock state: " + label)
+		}
+		return
+	}
+	o := hx.Observe(B)
+	if !model.EqualAsSets(o.Heads, model.Heads(o.Set)) || len(o.Values) != len(o.Set) {
+		run.Violate("C14/heads", det("kind", "stalled-reader"), map[string]any{"scenario": label}, "destination inconsistent after merging from a log with a stalled reader")
+	}
+	run.NonTrivial(fmt.Sprintf("stalled-reader/%d", i%6))
+}
+
+// c14Ladder: two logs append and merge each other every round (every entry has two predecessors: a ladder); a third,
+// empty log then merges one of them. Termination is decided on LOGICAL STEPS: the hook inside the difference
+// computation is counted and must stay linear in the size of the source; a merge that exceeds the bound is parked
+// at the hook (it would otherwise run for 2^rounds steps) and reported.
+func c14Ladder(run *evid.Run, i int, j *Journal) {
+	rng := rand.New(rand.NewSource(run.Seed*911 + int64(i)))
+	w := hx.NewWorld(run.Seed, 3, fmt.Sprintf("c14l-%d-%d", run.Seed, i), "hash", "cbor")
+	rounds := 18 + rng.Intn(14)
+	label := fmt.Sprintf("#%d ladder rounds=%d", i, rounds)
+	j.Log(map[string]any{"scenario": label})
+	A, B, C := w.NewLog(0), w.NewLog(1), w.NewLog(2)
+	for n := 0; n < rounds; n++ {
+		_, _ = A.Append(w.Ctx, []byte(fmt.Sprintf("a%d", n)), nil)
+		_, _ = B.Append(w.Ctx, []byte(fmt.Sprintf("b%d", n)), nil)
+		_, _ = A.Join(B, -1)
+		_, _ = B.Join(A, -1)
+	}
+	src := hx.Observe(A)
+	edges := 0
+	for _, e := range src.Set {
+		edges += len(e.Next)
+	}
+	bound := int64(4*(len(src.Set)+edges) + 64)
+	var visits int64
+	exceeded := make(chan struct{})
+	var once sync.Once
+	park := make(chan struct{}) // never closed: an exploding merge stays parked
+	ipfslog.SetVerifHook(func(l *ipfslog.IPFSLog, point string) {
+		if l == C && point == "difference.visit" {
+			if atomic.AddInt64(&visits, 1) > bound {
+				once.Do(func() { close(exceeded) })
+				<-park
+			}
+		}
+	})
+	defer installHook()
+	done := make(chan error, 1)
+	go func() { _, err := C.Join(A, -1); done <- err }()
+	run.Eval(1)
+	run.Count("scenarios_ladder", 1)
+	select {
+	case err := <-done:
+		if err != nil {
+			run.Violate("C14/join-error", det("kind", "ladder"), map[string]any{"scenario": label}, "merge failed: %v", err)
+			return
+		}
+		run.Count("ladder_difference_visits", int(atomic.LoadInt64(&visits)))
+		if got := hx.Observe(C); !model.SameKeys(got.Set, src.Set) {
+			run.Violate("C14/not-a-snapshot", det("kind", "ladder"), map[string]any{"scenario": label}, "merge of a ladder-shaped log into an empty log gave %d of %d entries", len(got.Set), len(src.Set))
+		}
+	case <-exceeded:
+		run.Violate("C14/does-not-terminate", det("kind", "ladder"), map[string]any{"scenario": label, "entries": len(src.Set), "predecessor_links": edges, "visit_bound": bound},
+			"merging a log of %d entries (%d predecessor links, built by %d rounds of cross-merges) visited more than %d entries while computing the difference: the work is not linear in the log (it doubles with every round)", len(src.Set), edges, rounds, bound)
+	case <-time.After(120 * time.Second):
+		run.Inconclusive("ladder merge neither finished nor exceeded its step bound: " + label)
+	}
+	run.NonTrivial(fmt.Sprintf("ladder/%d", rounds))
+}
+
 func c14Scenario(run *evid.Run, i int, j *Journal) {
 	rng := rand.New(rand.NewSource(run.Seed*577215 + int64(i)))
 	kind := c14Kinds[i%len(c14Kinds)]
 	if kind == "cross-4party" {
 		c14FourParty(run, i, c14Regimes[(i/len(c14Kinds))%len(c14Regimes)], j)
+		return
+	}
+	if kind == "stalled-reader" {
+		c14StalledReader(run, i, j)
+		return
+	}
+	if kind == "ladder" {
+		c14Ladder(run, i, j)
 		return
 	}
 	regime := c14Regimes[(i/len(c14Kinds))%len(c14Regimes)]
